@@ -1,8 +1,8 @@
 #!/bin/sh
-# usage: tools/seed_batch.sh "C01 C02" v /tmp/seed4 — vet and file <src>/<Cxx>/seed_{1,2,3} as seeded/<Cxx>-<letter>{1,2,3}
+# usage: tools/seed_batch.sh "C01 C02" v /tmp/seed4 — vet and file <src>/<Cxx>/seed_{1..4} as seeded/<Cxx>-<letter>{1..4}
 cd "$(dirname "$0")/.."
 for p in $1; do
-  for i in 1 2 3; do
+  for i in 1 2 3 4; do
     d=$3/$p/seed_$i
     [ -f "$d/patch.diff" ] || { echo "{\"id\": \"$p-$2$i\", \"missing\": true}"; continue; }
     /venv/bin/python tools/file_seed.py "$d" "$p-$2$i" --prop "$p" 2>&1 | tail -1
